@@ -1,7 +1,10 @@
 // Adapter for specs/WaitNext (C65): the real interfaces::BlockTemplate::waitNext on an in-process regtest node, called from a
 // waiter thread while a driver thread performs a schedule of operations; mock time everywhere.
 //   waitnext run <cases.ndjson>
-// case: {prevfees, addfee, runs: [{to, th, age, sched: [{k, d}...], startk, dseed}...]}
+// case: {addfee, runs: [{to, th, age, pf, sched: [{k, d}...], startk, dseed}...]}
+//   pf: total fees of the previous template as a wide value {q, r} = q * 10^9 + r satoshi (amounts travel wide in both directions:
+//   TLC's integers are 32 bit). Totals of 10^6 satoshi and more are paid out of 50 BTC coinbases; 22 BTC is paid by two transactions
+//   of 11 BTC each (every single fee below 2^31, their sum above).
 //   to: timeout in seconds (1000000 = none), th: fee threshold (999999999 = MAX_MONEY), age: seconds between the tip's block time
 //   and the moment the previous template is made; sched: "tip" (an empty block built on the tip, block time = mock clock, delivered with
 //   ProcessNewBlock), "add" (a transaction paying addfee through ProcessTransaction), "int" (BlockTemplate::interruptWait), "tick"
@@ -28,12 +31,23 @@ constexpr int64_t MAX_THRESHOLD = 999999999;
 
 struct Event { std::string e; int64_t a{0}, b{0}, c{0}; };
 
+constexpr int64_t WB = 1000000000;
+UniValue W(int64_t v)
+{
+    int64_t q = v / WB, r = v % WB;
+    if (r < 0) { r += WB; q -= 1; }
+    return Obj({{"q", q}, {"r", r}});
+}
+int64_t FromW(const UniValue& w) { return w["q"].getInt<int64_t>() * WB + w["r"].getInt<int64_t>(); }
+
 struct World {
     std::unique_ptr<ChainSim> sim;
     std::unique_ptr<interfaces::Mining> mining;
     int64_t mock;
     std::vector<std::pair<COutPoint, CAmount>> avail, unconf;   // anyone-can-spend outputs: confirmed / created by mempool transactions
     uint64_t counter{0};
+    std::vector<CTransactionRef> cbs;   // coinbases of the base chain (index = height - 1), 50 BTC each to coinbaseKey
+    size_t next_big{1};                 // next unspent one (0 is fanned out at the start)
 
     World()
     {
@@ -42,7 +56,7 @@ struct World {
         if (!Params().GetConsensus().fPowAllowMinDifficultyBlocks) throw std::runtime_error("regtest is expected to allow min-difficulty blocks");
         mock = Params().GenesisBlock().nTime + 1000000;
         SetMockTime(mock);
-        auto cbs = sim->MineBase(110);
+        cbs = sim->MineBase(149);   // 50 BTC coinbases; those of heights <= tip - 99 are spendable
         mining = interfaces::MakeMining(sim->m_node, /*wait_loaded=*/false);
         // fan out one mature coinbase into anyone-can-spend outputs
         CMutableTransaction m;
@@ -75,6 +89,22 @@ struct World {
         unconf.emplace_back(COutPoint(tx->GetHash(), 0), v - fee);
         return tx;
     }
+    // a transaction paying a large fee out of a mature 50 BTC coinbase; the change becomes an ordinary anyone-can-spend output
+    CTransactionRef MakeBigTx(CAmount fee)
+    {
+        const int tip = sim->Tip()->nHeight;
+        if (next_big >= cbs.size() || (int)next_big + 1 + 100 > tip + 1) throw std::runtime_error("out of mature 50 BTC coinbases");
+        const CTransactionRef& cb = cbs[next_big++];
+        CMutableTransaction m;
+        m.vin.emplace_back(COutPoint(cb->GetHash(), 0));
+        m.vout.emplace_back(cb->vout[0].nValue - fee, CScript() << OP_TRUE);
+        std::vector<unsigned char> tag(30, 0x66); ++counter; memcpy(tag.data(), &counter, sizeof(counter));
+        m.vout.emplace_back(0, CScript() << OP_RETURN << tag);
+        sim->SignP2PK(m, 0, cb->vout[0]);
+        auto tx = MakeTransactionRef(m);
+        unconf.emplace_back(COutPoint(tx->GetHash(), 0), cb->vout[0].nValue - fee);
+        return tx;
+    }
     // mines everything the mempool holds (a template of the node, solved), so that a run starts from an empty mempool
     void Cleanup()
     {
@@ -97,8 +127,9 @@ struct World {
         kn.m_tip_block_cv.notify_all();
     }
 
-    UniValue Run(const UniValue& run, CAmount prevfees, CAmount addfee)
+    UniValue Run(const UniValue& run, CAmount addfee)
     {
+        const CAmount prevfees = FromW(run["pf"]);
         const int64_t to = run["to"].getInt<int64_t>(), th = run["th"].getInt<int64_t>(), age = run["age"].getInt<int64_t>();
         const UniValue& sched = run["sched"];
         const int startk = run["startk"].getInt<int>();
@@ -113,7 +144,10 @@ struct World {
         // ---- start state: empty mempool + one transaction paying prevfees, tip `age` seconds old, previous template
         mock += 10; SetMockTime(mock);
         Cleanup();
-        if (prevfees > 0) Submit(MakeTx(prevfees));
+        if (prevfees >= 1000000) {
+            if (prevfees == 2200000000) { Submit(MakeBigTx(prevfees / 2)); Submit(MakeBigTx(prevfees / 2)); }
+            else Submit(MakeBigTx(prevfees));
+        } else if (prevfees > 0) Submit(MakeTx(prevfees));
         mock += age; SetMockTime(mock);
         std::unique_ptr<interfaces::BlockTemplate> prev = mining->createNewBlock({}, /*cooldown=*/false);
         if (!prev) throw std::runtime_error("no previous template");
@@ -197,8 +231,8 @@ struct World {
         waiter.join();
         if (!failure.empty()) throw std::runtime_error(failure);
         UniValue h(UniValue::VARR);
-        for (const auto& e : log) h.push_back(Obj({{"e", e.e}, {"a", e.a}, {"b", e.b}, {"c", e.c}}));
-        return Obj({{"to", to}, {"th", th}, {"age", age}, {"sched", sched}, {"startk", startk}, {"calls", calls}, {"dseed", run["dseed"]}, {"h", h}, {"hung", hung},
+        for (const auto& e : log) h.push_back(Obj({{"e", e.e}, {"a", e.a}, {"b", e.b}, {"c", W(e.c)}}));
+        return Obj({{"to", to}, {"th", th}, {"age", age}, {"pf", W(prevfees)}, {"sched", sched}, {"startk", startk}, {"calls", calls}, {"dseed", run["dseed"]}, {"h", h}, {"hung", hung},
                     {"tip_after", (int)tipidx.at(sim->Tip()->GetBlockHash())}});
     }
 };
@@ -215,7 +249,7 @@ int main(int argc, char** argv)
         for (size_t i = 0; i < runs.size(); ++i) {
             R().cur_step = i;
             try {
-                UniValue t = w->Run(runs[i], c["prevfees"].getInt<int64_t>(), c["addfee"].getInt<int64_t>());
+                UniValue t = w->Run(runs[i], c["addfee"].getInt<int64_t>());
                 t.pushKV("kind", "trace"); t.pushKV("test", (int64_t)n); t.pushKV("run", (int64_t)i);
                 Emit(t);
             } catch (const std::exception& e) { R().Mismatch(runs[i], std::string("exception: ") + e.what()); break; }
